@@ -168,8 +168,8 @@ class Gen:
             si = rng.choice([8, 16, 24]) if shape in ("in", "inout") else None
             so = rng.choice([4, 8, 32]) if shape in ("out", "inout") else None
             c = adef.mk_command(name, a, size_bits_in=si, size_bits_out=so,
-                                fields_in=self.fields(si, name, "in") if si else None,
-                                fields_out=self.fields(so, name, "out") if so else None,
+                                fields_in=self.fields(si, name, "in") if si and rng.random() < 0.85 else None,   # a declared size without fields is legal
+                                fields_out=self.fields(so, name, "out") if so and rng.random() < 0.85 else None,
                                 byte_order=self.byte_order(cfg, max(si or 0, so or 0)),
                                 bit_order=rng.choice([None, None, "MSB0"]), repeat=rep)
         self.commands.append(c)
